@@ -155,11 +155,18 @@ class Call:
         if not self.fn:
             return None
         r = self.fn['resolved']
+        uid = None
         if r.get('kind') in ('item', 'closure_once_shim', 'reify_shim', 'fn_ptr_shim') and r.get('local'):
-            return r['uid']
-        if r.get('kind') in ('unresolved', 'error') and self.fn.get('local'):
-            return self.fn['uid']
-        return None
+            uid = r['uid']
+        elif r.get('kind') in ('unresolved', 'error') and self.fn.get('local'):
+            uid = self.fn['uid']
+        if uid is not None:
+            # a trait method *declaration* called on a generic Self has no body of its own (its impls are reached
+            # through Program.trait_targets)
+            by_id = getattr(self.body.facts, 'by_id', None)
+            if by_id is not None and uid not in by_id:
+                return None
+        return uid
 
     @property
     def is_virtual(self):
